@@ -519,6 +519,26 @@ def c11(tier, seed):
     return r
 
 
+C11_EDGES = [("folded-equal-keys:Field/field", ["Field", "field"]), ("empty-label:!!", ["!!", "ok"]), ("leading-underscore:_x", ["_x", "ok"])]
+
+
+@bounded("C11", "documented_domain_edges")
+def c11_edges(tier, seed):
+    """the three key shapes the property statement places outside its domain and lists as known findings: each is probed on every run,
+    so that the KNOWN-FINDING line disappears when the behaviour is repaired and any *other* failure of the same oracle is still reported"""
+    viol = []
+    for wid, keys in C11_EDGES:
+        try:
+            msg = oracle_c11((keys, "pydantic", True))
+        except Exception as e:
+            msg = f"raised {type(e).__name__}: {e}"
+        if msg:
+            viol.append({"id": wid, "input": [keys, "pydantic", True], "what": msg, "replay": {"module": __name__, "fn": "replay", "oracle": "c11"}})
+    return {"evaluations": len(C11_EDGES), "distinct": len(C11_EDGES), "violations": viol,
+            "bound": "3 fixed key sets: case-folded-equal keys, a key without any letter or digit, a key with a leading underscore (pydantic, unicode conversion on)",
+            "function": "prepare_label / convert_field_name"}
+
+
 # ------------------------------------------------------------------------------------------------ C12
 def class_bodies(code):
     out = {}
